@@ -79,6 +79,11 @@ def items_of(y):
 class Independent(e2e.E2E):
     kind = "e2e"
 
+    def concretize(self, model, res):
+        req = super().concretize(model, res)
+        req["check_definition_unchanged"] = True
+        return req
+
     def run(self, ctx):
         res = super().run(ctx)
         p = self.job["params"]
@@ -117,8 +122,8 @@ class Independent(e2e.E2E):
                 for (n, av), (_, sv, sraw, scls) in zip(a_items, s_items):
                     obl.append((f"pkt{i}.{n}: same value alone and in the stream", term_same(av, sv)))
                     obl.append((f"pkt{i}.{n}: same raw value alone and in the stream", term_same(getattr(av, "raw_value", None), sraw)))
-        after = structural.definition_snapshot(self.defn)
-        obl.append(("definition unchanged by parsing", after == self.snap_before))
+        after = structural.public_state(self.defn)
+        obl.append(("definition unchanged by parsing (XML and public attributes)", after == self.snap_before))
         res.obligations = obl
         return res
 
@@ -180,7 +185,7 @@ class Interleave(e2e.E2E):
                 if okn:
                     for (nm, va), (_, vb) in zip(ia, ib):
                         obl.append((f"gen{g} item {k}.{nm}: same value", term_same(va, vb)))
-        obl.append(("definition unchanged by parsing", structural.definition_snapshot(self.defn) == self.snap_before))
+        obl.append(("definition unchanged by parsing (XML and public attributes)", structural.public_state(self.defn) == self.snap_before))
         observe = {"cls": "ran", "counts": [len(got[0]), len(got[1])],
                    "items": [[[[nm, v] for nm, v in (items_of(y) or [])] for y in got[g]] for g in range(2)]}
         return result(f"{len(got[0])}+{len(got[1])}", obl, observe=observe,
@@ -211,7 +216,7 @@ def make(job):
     h.lib = lib
     h.defn = bv.symbolize_definition(lib.definitions.XtcePacketDefinition.from_xtce(io.BytesIO(xml)))
     h.defn2 = bv.symbolize_definition(lib.definitions.XtcePacketDefinition.from_xtce(io.BytesIO(xml)))
-    h.snap_before = structural.definition_snapshot(h.defn)
+    h.snap_before = structural.public_state(h.defn)
     h.spec = specxtce.Spec(xml)
     return h
 
@@ -224,11 +229,11 @@ def J(h, name, template, lens, flagsets=(0, 1, 2, 3), split=16, chunk=25, **extr
 
 def jobs(tier):
     if tier == "quick":
-        return [J("e2e", "stream-T6", "T6", [12, 11, 12], flagsets=(0, 3)),
+        return [J("e2e", "stream-T6", "T6", [12, 11, 12], flagsets=(0, 3)), J("independent", "indep-T8", "T8", [8, 8, 8], flagsets=(3,)),
                 J("independent", "indep-T4", "T4", [9, 10, 9], flagsets=(1, 2)),
                 J("interleave", "interleave-T6", "T6", [12, 12], concrete_bytes=[0, 6, 7, 8, 9, 10], apid=6)]
     return [J("e2e", "stream-T4", "T4", [9, 10, 9, 10], flagsets=(0, 3)), J("e2e", "stream-T6", "T6", [12, 11, 12]), J("e2e", "stream-T5", "T5", [9, 8, 9], flagsets=(0, 1)),
-            J("independent", "indep-T4", "T4", [10, 9, 10]), J("independent", "indep-T6", "T6", [12, 12, 11], flagsets=(0, 3)),
+            J("independent", "indep-T4", "T4", [10, 9, 10]), J("independent", "indep-T8", "T8", [8, 8, 8]), J("independent", "indep-Blookup", "B|lookup|0", [14, 14], flagsets=(1,)), J("independent", "indep-T6", "T6", [12, 12, 11], flagsets=(0, 3)),
             J("interleave", "interleave-T6", "T6", [12, 12, 12], concrete_bytes=[0, 6, 7, 8, 9, 10], apid=6),
             J("interleave", "interleave-T4", "T4", [9, 10], concrete_bytes=[0, 2, 3])]
 
@@ -250,7 +255,7 @@ def concrete(req):     # noqa: F811
     i = req["input"]
     xml, _, _ = templates.get(i["template"])
     d = definitions.XtcePacketDefinition.from_xtce(io.BytesIO(xml))
-    snap0 = structural.definition_snapshot(d)
+    snap0 = structural.public_state(d)
     streams = [bytes.fromhex(s["hex"]) for s in i["streams"]]
     import warnings
     with warnings.catch_warnings():
@@ -276,7 +281,7 @@ def concrete(req):     # noqa: F811
             return str(v)
         return enc_concrete(bytes(v))
     items = [[[[nm, enc(v)] for nm, v in ((y.partial_data if isinstance(y, Exception) else y) or {}).items()] for y in got[g]] for g in range(2)]
-    return {"cls": "ran", "counts": [len(got[0]), len(got[1])], "items": items, "definition_changed": structural.definition_snapshot(d) != snap0}
+    return {"cls": "ran", "counts": [len(got[0]), len(got[1])], "items": items, "definition_changed": structural.public_state(d) != snap0}
 
 
 def judge(req, got):      # noqa: F811
